@@ -13,7 +13,7 @@ from vpkit import common
 
 ID = "C17"
 N = {"quick": 300, "thorough": 12000}
-BUDGET = {"quick": 240.0, "thorough": 1500.0}
+BUDGET = {"quick": 240.0, "thorough": 700.0}
 RULE = ("case = one random history (1-12 epochs, sizes 1e-3..1e12, breaks over many decades) with a "
         "random time vector incl. breakpoints and their floating-point neighbours, and gamma "
         "parameters; distinct by (epochs, sizes, breaks); non-trivial = >=2 epochs")
